@@ -120,6 +120,8 @@ def qr_eval(s, nsym, k, rlo, rhi):
             c = ev(x[1])
             if c.a == 0 and c.lo == c.hi:
                 return ev(x[2]) if c.lo != 0 else ev(x[3])
+            if c.a == 0 and (c.lo > 0 or c.hi < 0):
+                return ev(x[2])     # truthy throughout this remainder case
             raise Unk("conditional undetermined")
         raise Unk("construct %s" % t)
     return ev(s)
